@@ -78,15 +78,37 @@ def op_text_roundtrip(t):
             arg = [['_'.join(c), '_'.join(o)] for c, o in events]
         elif container == 'generator':
             arg = ((list(c), list(o)) for c, o in events)
-        elif container == 'dataframe':
-            import pandas as pd
-            arg = pd.DataFrame({'cues': ['_'.join(c) for c, _ in events],
-                                'outcomes': ['_'.join(o) for _, o in events]},
-                               columns=['cues', 'outcomes'], dtype=object)
+        elif container == 'tuple':              # a tuple of events (Iterable, not a list)
+            arg = tuple([list(c), list(o)] for c, o in events)
+        elif container == 'tuples':             # a list whose events are (cues, outcomes) tuples
+            arg = [(list(c), list(o)) for c, o in events]
+        elif container == 'iterator':           # a plain list iterator
+            arg = iter([[list(c), list(o)] for c, o in events])
+        elif container == 'map':                # a lazily computed Iterator that is no generator
+            arg = map(lambda e: (list(e[0]), list(e[1])), list(events))
+        elif container == 'mixed':              # one side a joined string, the other a list, changing per event
+            arg = []
+            for k, (c, o) in enumerate(events):
+                arg.append([('_'.join(c) if k % 3 != 1 else list(c)), ('_'.join(o) if k % 3 != 0 else list(o))])
+        elif container in ('dataframe', 'from_dataframe'):
+            del _DF_FALLBACK[:]
+            arg = _dataframe(events, t.get('df') or {})
+            if container == 'from_dataframe':
+                # io.events_from_dataframe(df, columns=(cue column, outcome column)) as the event source
+                names = (t.get('df') or {}).get('names') or ['cues', 'outcomes']
+                arg = io.events_from_dataframe(arg, columns=tuple(names))
         else:
             raise RuntimeError('bad container')
+        kw = {}
+        if t.get('columns') is not None:
+            kw['columns'] = tuple(t['columns'])
+        if t.get('delimiter') is not None:
+            kw['delimiter'] = t['delimiter']
+        import warnings
         try:
-            io.events_to_file(arg, path, compression=compression, compatible=bool(t.get('compatible')))
+            with warnings.catch_warnings(record=True) as caught:
+                warnings.simplefilter('always')
+                io.events_to_file(arg, path, compression=compression, compatible=bool(t.get('compatible')), **kw)
         except Exception as e:  # noqa
             r = _err(e)
             r['stage'] = 'write'
@@ -94,9 +116,63 @@ def op_text_roundtrip(t):
         res = _read(path, compression, int(t.get('start', 0)), int(t.get('step', 1)))
         if t.get('count_jobs') and compression == 'gzip':
             res['count'] = _count(path, int(t['count_jobs']))
+        # the characters of the written file, no newline translation (code points: they may be line separators)
+        try:
+            with (gzip.open(path, 'rb') if compression == 'gzip' else open(path, 'rb')) as f:
+                res['raw'] = [ord(ch) for ch in f.read().decode('utf-8')]
+        except Exception as e:  # noqa
+            res['raw'] = _err(e)
+        # did the writer issue its 'sets the columns to the legacy names' warning (io.py:106-108)?
+        res['legacy_warning'] = any('legacy names' in str(w.message) for w in caught)
+        if container in ('dataframe', 'from_dataframe') and _DF_FALLBACK:
+            res['df_dtype_fallback'] = list(_DF_FALLBACK)
         return res
     finally:
         shutil.rmtree(d, ignore_errors=True)
+
+
+_DF_FALLBACK = []
+
+
+def _dataframe(events, spec):
+    """
+    the DataFrame of a case.  spec: names [cue column, outcome column] (default cues/outcomes), order 'co'|'oc'
+    (which of the two comes first), extra None|'first'|'middle'|'last' (an unused column, named `frequency`, of
+    ints), index 'default'|'str'|'reversed'|'dup'|'multi', dtype 'object'|'string'|'category'
+    """
+    import pandas as pd
+    cn, on = spec.get('names') or ['cues', 'outcomes']
+    cols = [(cn, ['_'.join(c) for c, _ in events]), (on, ['_'.join(o) for _, o in events])]
+    if spec.get('order', 'co') == 'oc':
+        cols.reverse()
+    extra = spec.get('extra')
+    if extra:
+        cols.insert({'first': 0, 'middle': 1, 'last': 2}[extra], ('frequency', [3 + k for k in range(len(events))]))
+    dtype = spec.get('dtype', 'object')
+    data = {}
+    for name, vals in cols:
+        data[name] = pd.Series(vals, dtype=('int64' if name == 'frequency' else object))
+    df = pd.DataFrame(data, columns=[name for name, _ in cols])
+    if dtype != 'object':
+        for name in (cn, on):
+            conv = df[name].astype(dtype)
+            # pandas' category factorisation compares strings up to the first NUL ('\x00' and '' fall into one
+            # category): a conversion that does not hold the intended cells is not used (the column stays object)
+            if [str(x) for x in conv.tolist()] == [str(x) for x in df[name].tolist()]:
+                df[name] = conv
+            else:
+                _DF_FALLBACK.append(name)
+    n = len(events)
+    index = spec.get('index', 'default')
+    if index == 'str':
+        df.index = ['row%d' % k for k in range(n)]
+    elif index == 'reversed':
+        df.index = list(range(n - 1, -1, -1))
+    elif index == 'dup':
+        df.index = [7] * n
+    elif index == 'multi':
+        df.index = pd.MultiIndex.from_arrays([[k // 2 for k in range(n)], [k % 2 for k in range(n)]])
+    return df
 
 
 def op_text_file(t):
